@@ -6,6 +6,8 @@
               E <json dump of elab d | {"error": kind}>
               W <emit of that netlist: lines separated by ';', tokens by ' '>   (or "W !" on error)
               R <json dump of elab (emit n)>                                   (or "R !")
+   Detached cables (m_orphans) are printed only when one of their wires still holds a pin: the
+   implementation side can reach them through those pins only.
    Trusted glue: parsing of the protocol and printing only. *)
 open Eblif_model
 
@@ -75,7 +77,8 @@ let model_j m =
   ^ ",\"clock\":" ^ jopt (jlist js) m.m_clock
   ^ ",\"insts\":" ^ jlist inst_j m.m_insts
   ^ ",\"cables\":" ^ jlist cable_j m.m_cables
-  ^ ",\"orphans\":" ^ jlist (fun x -> x) (List.sort compare (List.map cable_j m.m_orphans)) ^ "}"
+  ^ ",\"orphans\":" ^ jlist (fun x -> x) (List.sort compare (List.map cable_j
+        (List.filter (fun c -> List.exists (fun w -> w <> []) c.c_wires) m.m_orphans))) ^ "}"
 
 let comment_s toks = List.concat (List.map (fun t -> t @ [n_of_int 32]) toks)
 
